@@ -387,20 +387,57 @@ func patText(segs []Seg) string {
 	return b.String()
 }
 
-// shape is the pattern with variable names erased (chi's view of it)
-func shape(segs []Seg) string {
-	var b strings.Builder
-	for _, s := range segs {
-		switch s.K {
-		case "lit":
-			b.WriteString("/" + strings.Join(s.V, ""))
-		case "var":
-			b.WriteString("/{}")
-		default:
-			b.WriteString("/*")
+// variant derives a later Handle call from an earlier one (a registration history): the same pattern again,
+// its wildcards renamed, another method, the trailing slash added or dropped - alone or combined.  What the
+// muxer must do with it is said by spec/Mux.tla (the trace is validated against it), not here.
+func variant(rg *rand.Rand, prev Op, methods []string) ([]Seg, string) {
+	segs := make([]Seg, len(prev.Segs))
+	for i, s := range prev.Segs {
+		segs[i] = Seg{K: s.K, V: append([]string{}, s.V...)}
+	}
+	m := prev.Method
+	if rg.Intn(2) == 0 { // other names (distinct within the pattern)
+		names := []string{"uid", "key", "id", "name", "k", "v"}
+		rg.Shuffle(len(names), func(i, j int) { names[i], names[j] = names[j], names[i] })
+		for i := range segs {
+			switch segs[i].K {
+			case "var":
+				if rg.Intn(3) != 0 {
+					segs[i].V = []string{names[i]}
+				}
+			case "wild":
+				segs[i].V = []string{[]string{"rest", "tail", "path"}[rg.Intn(3)]}
+			}
+		}
+		seen := map[string]bool{}
+		for _, s := range segs {
+			if s.K == "var" {
+				if seen[s.V[0]] { // a name used twice: keep the earlier call's names
+					for i, p := range prev.Segs {
+						if p.K == "var" {
+							segs[i].V = append([]string{}, p.V...)
+						}
+					}
+					break
+				}
+				seen[s.V[0]] = true
+			}
 		}
 	}
-	return b.String()
+	if rg.Intn(3) == 0 {
+		m = methods[rg.Intn(2)]
+	}
+	if rg.Intn(4) == 0 { // trailing slash
+		n := len(segs)
+		last := segs[n-1]
+		switch {
+		case last.K == "lit" && len(last.V) == 0 && n > 1:
+			segs = segs[:n-1]
+		case last.K == "var" || (last.K == "lit" && len(last.V) > 0):
+			segs = append(segs, Seg{K: "lit", V: []string{}})
+		}
+	}
+	return segs, m
 }
 
 func randPattern(rg *rand.Rand) []Seg {
@@ -439,16 +476,14 @@ func randCase(rg *rand.Rand) Case {
 		c.Plan = append(c.Plan, Op{Op: "use", ID: i, Probe: rg.Intn(2) == 0, Method: "-"})
 	}
 	np := 1 + rg.Intn(6)
-	taken := map[string]string{} // method + shape -> pattern text
 	var handles []Op
 	for len(handles) < np {
 		segs := randPattern(rg)
 		m := methods[rg.Intn(2)]
-		txt := patText(segs)
-		if prev, ok := taken[m+shape(segs)]; ok && prev != txt {
-			continue // same route registered under other variable names: not a configuration the model describes
+		if len(handles) > 0 && rg.Intn(3) == 0 {
+			segs, m = variant(rg, handles[rg.Intn(len(handles))], methods)
 		}
-		taken[m+shape(segs)] = txt
+		txt := patText(segs)
 		o := Op{Op: "handle", ID: len(handles) + 1, Method: m, Pattern: txt, Segs: segs}
 		handles = append(handles, o)
 		c.Plan = append(c.Plan, o)
